@@ -78,7 +78,7 @@ Proof.
   cbn [tf_axes].
   assert (Hkw : kw_of (OCat d) = 0%Z) by (destruct Hd as [->|[->| ->]]; reflexivity).
   assert (Hdv : dim_value d = 0%Z) by (destruct Hd as [->|[->| ->]]; reflexivity).
-  unfold tf_grid_batch. rewrite Hkw, Hgr. cbn [Z.eqb].
+  unfold tf_grid_batch. rewrite Hkw, Hgr. cbn [Z.eqb Z.ltb Z.compare].
   destruct (map grids_of l) as [|g0 gr] eqn:EG; [subst l; discriminate EG|].
   rewrite <- EG. cbn [class_of flat_of].
   unfold one_kind.
@@ -117,6 +117,56 @@ Proof.
     unfold G, grids_of in Hg. destruct (t_kind (nth j l (mkT [] TPlain))); auto.
     + destruct e; discriminate Hg.
     + destruct e; discriminate Hg.
+  - intros ax Hax; discriminate Hax.
+Qed.
+(* torch.cat along another dimension (channels; a spatial dimension only if the shape still matches): typed with the grids
+   of the first operand, entry i holds entry i of every operand *)
+Theorem cat_other_dim_sound d a args :
+  (0 < dim_value d)%Z -> all_image_batches (a :: args) ->
+  res_sound gshape (a :: args) (run_op gshape gaxes (OCat d) (a :: args)).
+Proof.
+  intros Hd Hall. set (l := a :: args) in *.
+  assert (Hrun : run_op gshape gaxes (OCat d) l = dispatch_batch gshape false (OCat d) l).
+  { unfold run_op. subst l. now rewrite choose_disp_image_batches. }
+  rewrite Hrun. unfold dispatch_batch.
+  destruct (all_batches_kinds l Hall) as (Htb & Hgr). rewrite Htb.
+  destruct (data_sem (OCat d) (map t_shape l)) as [e|dd|ds] eqn:ED; [exact I| |].
+  2:{ exfalso. cbn in ED. repeat match type of ED with context [match ?c with _ => _ end] => destruct c end; discriminate ED. }
+  cbn [tf_axes].
+  unfold tf_grid_batch. rewrite Hgr. cbn [kw_of].
+  assert (Hlt : (dim_value d <? 0)%Z = false) by (apply Z.ltb_ge; lia).
+  assert (Hne : (dim_value d =? 0)%Z = false) by (apply Z.eqb_neq; lia).
+  rewrite Hlt, Hne.
+  subst l. cbn [map]. cbn [class_of flat_of].
+  inversion Hall as [|? ? (g0 & Hk0 & Hwf0) Hrest]; subst.
+  unfold grids_of at 1. rewrite Hk0.
+  unfold one_kind.
+  destruct (res_batch gshape (d_shape dd) (Some g0)) as [e|k] eqn:ER; [exact I|].
+  destruct k as [|fl gs'|fl g]; unfold res_sound, out_sound; cbn [v_kind v_src v_shape]; auto.
+  2:{ exfalso. exact (res_batch_not_single gshape _ _ _ _ ER). }
+  apply res_batch_typed in ER. destruct ER as (-> & -> & HN & H4 & HF).
+  split; [unfold wf_val, val_of; cbn [t_kind t_shape v_shape v_kind]; repeat split; auto|].
+  intros i Hi.
+  unfold wf_val in Hwf0. rewrite Hk0 in Hwf0. destruct Hwf0 as (HL0 & H40 & _).
+  (* provenance of a concatenation along a dimension other than the first *)
+  assert (Hsrc : nth i (d_src dd) [] = map (fun j => (j, i)) (seq 0 (S (length args)))).
+  { cbn -[nth_shape] in ED.
+    match type of ED with context [norm_dim ?n ?z] => destruct (norm_dim n z) as [nd|] eqn:En; [|discriminate ED] end.
+    assert (Hnd : nd <> 0).
+    { unfold norm_dim in En.
+      match type of En with context [if ?c then _ else _] => destruct c eqn:E1 end.
+      - injection En as <-. lia.
+      - match type of En with context [if ?c then _ else _] => destruct c eqn:E2 end; [|discriminate En].
+        apply andb_true_iff in E2. destruct E2 as [_ E2]. apply Z.ltb_lt in E2. lia. }
+    match type of ED with context [if ?c then _ else _] => destruct c; [|discriminate ED] end.
+    injection ED as <-. cbn [d_src]. destruct (nd =? 0) eqn:E0; [apply Nat.eqb_eq in E0; contradiction|].
+    cbn [nth_shape nth length map]. rewrite map_length.
+    rewrite nth_map_seq; [reflexivity|]. unfold gid in *. rewrite <- HL0. exact Hi. }
+  rewrite Hsrc. split; [|split].
+  - intros x y Hx Hy _ _. apply in_map_iff in Hx. apply in_map_iff in Hy.
+    destruct Hx as (jx & <- & _). destruct Hy as (jy & <- & _). reflexivity.
+  - exists (0, i). split; [apply in_map_iff; exists 0; split; [reflexivity|apply in_seq; lia]|].
+    unfold entry_grid. cbn [fst snd nth_error]. rewrite Hk0. now apply nth_error_nth'.
   - intros ax Hax; discriminate Hax.
 Qed.
 End Cat.
